@@ -1061,8 +1061,10 @@ class Path:
                 val = self._builtin(name, args, [(k, v) for k, v in kws if k != "out"], n)
                 self._store_into(out, val, n, aug=True)
                 return out
-        if name == "np.putmask" and len(args) == 3 and not kws and (is_const(args[2]) or args[2][0] == "g"):
-            self._store(args[0], args[1], args[2], n)           # a scalar written where the mask is true
+        if name == "np.putmask" and len(args) == 3 and not kws:
+            # a[mask] = v for a scalar v; for an array v of the shape of the mask (anything else is not `a[mask] = v[mask]`, which raises)
+            v_ = args[2] if (is_const(args[2]) or args[2][0] == "g") else self._load(args[2], args[1])
+            self._store_mask(args[0], args[1], v_, n)
             return NONE
         if name in UFUNC2 and len(args) == 2 and not kws:
             return self._binop(UFUNC2[name], args[0], args[1])
@@ -1087,6 +1089,13 @@ class Path:
         if name == "zip" and args and not kws and all(self._iter_items(a) is not None for a in args):
             cols = [self._iter_items(a) for a in args]
             return ("tup",) + tuple(("tup",) + tuple(c[k] for c in cols) for k in range(min(len(c) for c in cols)))
+        if name == "zip" and len(args) >= 2 and not kws and any(self._iter_items(a) is not None for a in args) \
+                and all(self._iter_items(a) is not None or (a[0] in ("s", "attr", "idx", "elem") and not self.is_list(a)) for a in args):
+            # a literal table zipped with a sequence that is not known element by element: element k of the sequence goes with entry k (on
+            # every execution on which the sequence is long enough, which unpacking it into as many names also requires)
+            nmin = min(len(self._iter_items(a)) for a in args if self._iter_items(a) is not None)
+            cols = [self._iter_items(a)[:nmin] if self._iter_items(a) is not None else [self._load(a, ("c", k)) for k in range(nmin)] for a in args]
+            return ("tup",) + tuple(("tup",) + tuple(c[k] for c in cols) for k in range(nmin))
         if name == "range" and 1 <= len(args) <= 3 and not kws and all(is_const(a) and isinstance(a[1], int) and not isinstance(a[1], bool) for a in args):
             try:
                 r_ = range(*[a[1] for a in args])
@@ -1244,6 +1253,14 @@ class Path:
             if not self.loops:
                 st.content[idx] = val
         self._ev("store", target=base, index=idx, value=val, node=node, aug=aug)
+
+    def _store_mask(self, dst, m_, val, node):
+        """dst[m_] = val where dst is a value (an array, or a column view X[:, c]: the rows m_ of that column)"""
+        if dst[0] in ("idx", "ld") and not self.is_list(dst[1]) and basic_index(self, dst[2], self.I.kinds) is True:
+            col = dst[2]
+            if col[0] == "tup" and len(col) == 3 and col[1] == ("slice", NONE, NONE, NONE):
+                return self._store(dst[1], ("tup", m_, col[2]), val, node)
+        self._store(dst, m_, val, node)
 
     def _store_into(self, tgt, val, node, aug=False):
         """`tgt[...] = val` where tgt is a value: a view (basic indexing) writes through to what it was taken from, the result of advanced
